@@ -3270,6 +3270,107 @@ def unstar_record_constructions(repo, f, counter):
     return changed
 
 
+
+def rename_comprehension_targets(fnode, counter):
+    """a comprehension's loop variables live in a scope of their own; when the function binds the same name elsewhere (`entry` of a set
+    comprehension and `entry` of a later loop) the comprehension's variable gets a name of its own, so that each is a single binding"""
+    stores = {}
+    for x in ast.walk(fnode):
+        if isinstance(x, ast.Name) and isinstance(x.ctx, (ast.Store, ast.Del)):
+            stores[x.id] = stores.get(x.id, 0) + 1
+    a = fnode.args
+    params = {p.arg for p in a.posonlyargs + a.args + a.kwonlyargs}
+    changed = False
+    for comp in [n for n in ast.walk(fnode) if isinstance(n, (ast.ListComp, ast.SetComp, ast.DictComp, ast.GeneratorExp))]:
+        own = {}
+        for g in comp.generators:
+            for x in ast.walk(g.target):
+                if isinstance(x, ast.Name):
+                    own[x.id] = own.get(x.id, 0) + 1
+        clash = [nm for nm, c in own.items() if stores.get(nm, 0) > c or nm in params]
+        if not clash:
+            continue
+        counter[0] += 1
+        ren = {nm: f"{nm}__c{counter[0]}" for nm in clash}
+        # the first generator's iterable is evaluated in the enclosing scope: it is not renamed
+        first_iter = comp.generators[0].iter
+
+        class Rn(ast.NodeTransformer):
+            def visit_Name(self, n):
+                if n.id in ren:
+                    return ast.copy_location(ast.Name(id=ren[n.id], ctx=n.ctx), n)
+                return n
+        for fld in ("elt", "key", "value"):
+            if hasattr(comp, fld):
+                setattr(comp, fld, Rn().visit(getattr(comp, fld)))
+        for i, g in enumerate(comp.generators):
+            g.target = Rn().visit(g.target)
+            if i > 0:
+                g.iter = Rn().visit(g.iter)
+            g.ifs = [Rn().visit(t) for t in g.ifs]
+        comp.generators[0].iter = first_iter
+        for nm, c in own.items():
+            if nm in ren:
+                stores[nm] -= c
+        changed = True
+    if changed:
+        ast.fix_missing_locations(fnode)
+    return changed
+
+
+def comprehensions_over_simple_generators(repo, f):
+    """{E(x) for x in obj.gen(args)}   with gen a NEW generator of the shape `for k in IT: yield V`   ->   {E(V') for k' in IT'}
+    (primes: parameters and the receiver substituted, the generator's loop variable given a fresh name)"""
+    from .astutil import resolve_helper, bind_args
+    from .inliner import _bind_receiver, _is_generator
+    new = set(getattr(repo, "new_functions", []) or [])
+    if not new:
+        return False
+    changed = False
+    used = {x.id for x in ast.walk(f.node) if isinstance(x, ast.Name)}
+    k_ = [0]
+    for comp in [n for n in ast.walk(f.node) if isinstance(n, (ast.ListComp, ast.SetComp, ast.DictComp, ast.GeneratorExp))]:
+        for g in comp.generators:
+            if not (isinstance(g.iter, ast.Call) and isinstance(g.target, ast.Name) and not g.is_async):
+                continue
+            h, skip = resolve_helper(repo, f, g.iter)
+            if h is None or h.qname not in new or h.node is f.node or not _is_generator(h.node) or h.node.decorator_list:
+                continue
+            body = [st for st in h.node.body if not (isinstance(st, ast.Expr) and isinstance(st.value, ast.Constant))]
+            if not (len(body) == 1 and isinstance(body[0], ast.For) and not body[0].orelse and len(body[0].body) == 1 and isinstance(body[0].body[0], ast.Expr)
+                    and isinstance(body[0].body[0].value, ast.Yield) and body[0].body[0].value.value is not None and isinstance(body[0].target, ast.Name)):
+                continue
+            b = _bind_receiver(h, skip, g.iter, bind_args(h, skip, g.iter), f)
+            if b is None or not all(_cheap(v) or isinstance(v, ast.Constant) for v in b.values()):
+                continue
+            lp = body[0]
+            k_[0] += 1
+            fresh = f"{lp.target.id}__y{k_[0]}"
+            while fresh in used:
+                k_[0] += 1
+                fresh = f"{lp.target.id}__y{k_[0]}"
+            used.add(fresh)
+            sub = _Sub(dict(b), {lp.target.id: fresh})
+            it2 = sub.visit(copy.deepcopy(lp.iter))
+            val2 = sub.visit(copy.deepcopy(lp.body[0].value.value))
+            x = g.target.id
+            xs = _Sub({x: val2}, {})
+            for fld in ("elt", "key", "value"):
+                if hasattr(comp, fld):
+                    setattr(comp, fld, xs.visit(getattr(comp, fld)))
+            later = comp.generators[comp.generators.index(g) + 1:]
+            for g2 in later:
+                g2.iter = xs.visit(g2.iter)
+                g2.ifs = [xs.visit(t) for t in g2.ifs]
+            g.ifs = [xs.visit(t) for t in g.ifs]
+            g.target = ast.Name(id=fresh, ctx=ast.Store())
+            g.iter = it2
+            changed = True
+    if changed:
+        ast.fix_missing_locations(f.node)
+    return changed
+
+
 # --------------------------------------------------------------------------------------------------- deferred raise
 def undefer_raises(stmts):
     """problem = None; if A: problem = M1 [elif B: problem = M2 ...]; if problem is not None: raise E(problem)
@@ -3477,6 +3578,12 @@ def partial_evaluate(repo, max_rounds=8):
             if (steps or q in getattr(repo, "inlined", {})) and scalarise_display_locals(f, counter):
                 ch = True
                 steps.append("displays")
+            if (steps or q in getattr(repo, "inlined", {}) or _calls_new_helper(repo, f)) and comprehensions_over_simple_generators(repo, f):
+                ch = True
+                steps.append("comprehension-generators")
+            if (steps or q in getattr(repo, "inlined", {})) and rename_comprehension_targets(f.node, counter):
+                ch = True
+                steps.append("comprehension-scopes")
             if unstar_record_constructions(repo, f, counter):
                 ch = True
                 steps.append("unstar-records")
